@@ -1,5 +1,6 @@
 import Verif.Proofs.CssGrammar
 import Verif.Proofs.CssSel
+import Verif.Proofs.CssShorthand
 import Verif.Model.CssShorthand
 import Verif.Spec.CssGrammarSpec
 /-!
@@ -251,6 +252,20 @@ open Verif.Model.Css Verif.Model.CssShorthand Verif.Spec.CssShorthand in
 /-- every `background` value of the grammar of CSS Backgrounds 3 §3.10 keeps the component slots of every layer -/
 def background_ok : Prop :=
   ∀ (vs : List Tok), (bgDen vs).isSome = true → bgInside vs = true → bgDen (minifyBackground vs) = bgDen vs
+
+open Verif.Model.Css Verif.Model.CssShorthand Verif.Spec.CssShorthand in
+/-- **font_pre_ok** (component theorem, every token list): the rewrite of the tokens in front of the font size —
+`normal` removed, `bold` → `700`, `400` removed — keeps every component slot: whenever the tokens `pre` fill the
+slots style / variant / weight / stretch consistently from the initial values (no slot twice, at most four tokens),
+the rewritten tokens fill them with the same values -/
+theorem font_pre_ok (pre : List Tok) (d0 r : FontDen) (hw : d0.weight = .abs 400)
+    (h : fillPre pre d0 [] = some r) : fillPre (pre.filterMap fontPreTok) d0 [] = some r :=
+  Verif.Proofs.CssShorthand.fillPre_fontPre pre d0 [] [] r (fun _ h => h) (Nat.le_refl _) (fun _ => hw) h
+
+open Verif.Model.Css Verif.Model.CssShorthand Verif.Spec.CssShorthand in
+example : let d0 : FontDen := ⟨"normal".toList, "normal".toList, .abs 400, "normal".toList, normalTok, normalTok, []⟩
+    let pre := [tok .ident "Normal", tok .ident "italic", tok .ident "BOLD", tok .ident "normal"]
+    (fillPre pre d0 []).isSome = true ∧ lexemes (pre.filterMap fontPreTok) = "italic700".toList := by decide +kernel
 
 /-- `normal bold 12px/normal "Times New Roman", serif` -/
 def exFont : List Tok :=
